@@ -20,7 +20,7 @@ for p in props:
       "engine": "gvc",
       "level_claimed": {"category":"proof","text":c["text"],"design_ref":c["ref"]},
       "level_note": c["note"],
-      "technique": "contract-based deductive verification: weakest-precondition VCs over go/ssa of the real code, discharged by z3/cvc5",
+      "technique": "contract-based deductive verification: weakest-precondition VCs over go/ssa of the real code, discharged by z3/cvc5" + c.get("technique_extra", ""),
     })
 na=[]
 for p in props:
